@@ -119,7 +119,7 @@ func (l *lockedPublisher) Close() error { return nil }
 // are filled in) remembers keys across messages like an explicitly configured one: of two (three) messages
 // with equal payloads presented one after the other, or two concurrently, exactly one gets through.
 func HarnessC14Defaults() {
-	models.TickerTicks = 1
+	models.TickerTicks = 0 // the clean-up loop is started and stays idle (HarnessC14Window drives it)
 	var d *Deduplicator
 	if vrt.Bool("zero.value") {
 		d = &Deduplicator{}
